@@ -13,7 +13,7 @@ from ..verdict import Acc
 from .api import make_source
 from ..paramspace import decode_vector, vector_for
 
-SIZES = {"quick": dict(n_synth=40, n_gen=8, steps=200, seeds=1),
+SIZES = {"quick": dict(n_synth=110, n_gen=16, steps=200, seeds=1),
          "thorough": dict(n_synth=900, n_gen=150, steps=600, seeds=2)}
 MODES = list(itertools.product([False, True], repeat=3))
 
@@ -31,7 +31,7 @@ def norm_info(info):
     return out
 
 
-def run_traj(subj, sp, plan, seed, lock=None):
+def run_traj(subj, sp, plan, seed, lock=None, obs_out=None):
     """Execute the abstract plan; returns list of per-step records."""
     env = subj.env
     flat = subj.modes["flat_actions"]
@@ -48,6 +48,8 @@ def run_traj(subj, sp, plan, seed, lock=None):
         o, r, term, trunc, info = env.step(arg)
         rec.append((env.current_state.tensor.tobytes(), float(r), bool(term),
                     bool(trunc), norm_info(info)))
+        if obs_out is not None:
+            obs_out.append(np.array(o, copy=True))
     return rec
 
 
@@ -88,6 +90,7 @@ def case(acc, sp, kw, rng, tier, seed_base):
                 pilot.env.reset()
         # ---- the eight trajectories, one after another
         ref = None
+        all_obs = {}
         fresh = rng.random() < 0.3
         for m in MODES:
             modes = dict(fully_obs=m[0], flat_actions=m[1], flat_obs=m[2])
@@ -95,7 +98,9 @@ def case(acc, sp, kw, rng, tier, seed_base):
             if not (fresh and kw.get("route") in ("yaml", "dict")):
                 k2["scenario"] = scenario
             subj = Subject(sp, **modes, **k2)
-            rec = run_traj(subj, sp, plan, seed)
+            obs_m = []
+            rec = run_traj(subj, sp, plan, seed, obs_out=obs_m)
+            all_obs[m] = obs_m
             acc.evaluations += 1
             if ref is None:
                 ref, ref_modes = rec, modes
@@ -122,6 +127,42 @@ def case(acc, sp, kw, rng, tier, seed_base):
                      "plan": [list(p) for p in plan[:k + 1]],
                      "modes_a": ref_modes, "modes_b": modes})
                 break
+        # observations may differ between modes only in content (full vs
+        # masked) and shape: same observability => same content whatever the
+        # action space or array shape; masked entries are either 0 or equal
+        # to the fully observable ones
+        shape2d = (len(sp.addrs) + 1, pilot.lay.width)
+        if len(all_obs) == len(MODES) and all(
+                len(v) == len(all_obs[MODES[0]]) for v in all_obs.values()):
+            for k in range(len(all_obs[MODES[0]])):
+                acc.evaluations += 1
+                full = [all_obs[m][k].reshape(shape2d) for m in MODES if m[0]]
+                part = [all_obs[m][k].reshape(shape2d) for m in MODES
+                        if not m[0]]
+                bad = None
+                if any(not np.array_equal(x, full[0]) for x in full[1:]) or \
+                        any(not np.array_equal(x, part[0]) for x in part[1:]):
+                    bad = "content depends on action space or array shape"
+                else:
+                    nz = part[0] != 0
+                    if np.any(part[0][nz] != full[0][nz]):
+                        bad = "masked observation contradicts the full one"
+                if bad:
+                    acc.violation("observation_relation",
+                                  "observation_relation", {"step": k,
+                                                           "what": bad},
+                                  {"kind": "modes", "spec": sp.canonical(),
+                                   "route": kw.get("route"), "seed": seed,
+                                   "plan": [list(p) for p in plan[:k + 1]],
+                                   "modes_a": dict(fully_obs=True,
+                                                   flat_actions=True,
+                                                   flat_obs=True),
+                                   "modes_b": dict(fully_obs=False,
+                                                   flat_actions=True,
+                                                   flat_obs=True)})
+                    break
+            acc.count("observation_sets_compared",
+                      len(all_obs[MODES[0]]))
         steps = [r for r in ref if r[0] != "reset"]
         n_succ = sum(1 for r in steps if r[4]["success"])
         n_chance = sum(1 for r in steps if r[4]["undefined_error"])
